@@ -1,5 +1,6 @@
 import Mdns.Lemmas.Responder
 import Mdns.Lemmas.ResponderSched
+import Mdns.Lemmas.ResponderAnnounce
 /-
   C07  A name is probed three times before it is announced, then announced twice.
 
@@ -43,11 +44,16 @@ import Mdns.Lemmas.ResponderSched
     records are active is announced with PTR/subtype PTR/SRV/TXT/addresses, becomes `Announced`,
     `RegisterResend` queued for +1000 ms with a timer; `second_announcement`: the re-run sends the
     same record set again, by the invariant);
+  * ANNOUNCED TWICE, for any service and any daemon state (`registration_announced_twice`): with
+    jitter `j ≥ 1`, a timely scheduler and no other input, `register(svc)` at `t0` of a service none
+    of whose unique records is held leads to the announcement (PTR, subtype PTR, SRV, TXT,
+    addresses as answers) in the iteration at `t0+j+750` and again in the one at `t0+j+1750`;
   The statement for every service, interface and start time is `probe_lifecycle_full`.
 
   Findings kept as theorems about the model (= the code, by the correspondence):
-  `late_iteration_skips_probes` (an iteration 750 ms late ends a probe that sent nothing) and
-  `joining_record_inherits_age` (a record that joins a running probe becomes active with it).
+  `late_iteration_skips_probes` (an iteration 750 ms late ends a probe that sent nothing).
+  Repaired: D33 - `joining_record_restarts_probe` (a record that joins a running probe starts
+  it over) with a regression example on the witness history.
 -/
 namespace Mdns.Props.C07
 open Mdns Mdns.Responder
@@ -138,12 +144,14 @@ theorem new_probe_starts_at_jitter (r : Registry) (a : RR) (n : BList) (t : Nat)
   exact ⟨p, hp, hnew h⟩
 
 /-- Every probe a registration creates - for a name that was not being probed - starts, and
-    first sends, at `now + jitter`; a probe that was already running keeps its times. -/
+    first sends, at `now + jitter`; a probe that was already running keeps its times, or - it
+    began earlier and a record of the service joined it - starts over at `now + jitter` (repair
+    of D33: the joining record gets its three probe queries). -/
 theorem registration_probe_times (s : Service) (i : MyIntf) (r : Registry) (v4 : Bool) (now j : Nat) (n : BList) :
     (alookup n r.probing = none → ∀ p, alookup n (prepareAnnounceReg s i r v4 now j).probing = some p →
       p.start = now + j ∧ p.next = now + j) ∧
     (∀ q, alookup n r.probing = some q → ∃ p, alookup n (prepareAnnounceReg s i r v4 now j).probing = some p ∧
-      p.start = q.start ∧ p.next = q.next) :=
+      ((p.start = q.start ∧ p.next = q.next) ∨ (p.start = now + j ∧ p.next = now + j ∧ q.start < now + j))) :=
   prepareAnnounceReg_times s i r v4 now j n
 
 /-- The end of a probe (`handle_expired_probes`, no rename pending): the probe is removed, each
@@ -159,18 +167,19 @@ theorem probe_end_activates_records (intfName : BList) (acc : Registry × List E
 /-! ### the schedule of a probe INSIDE the daemon loop -/
 
 /-- ONE idle loop iteration (`iter` without datagram and command) of a daemon in ANY state in
-    which it runs, interface `i` is there once, and the probe of `n` on `i` has start `st`, next
-    send `nx` and holds the records `R` - other probes, services, interfaces, queued re-runs and
-    timers arbitrary.  While the probe does not end (`now < nx` or `now < st + 750`): the probe
+    which it runs, interface `i` is there once, the probe of `n` on `i` has start `st`, next
+    send `nx` and holds the records `R`, and no record named `n` of a registered service is left
+    to come to that probe (`Settled`, part of `Good`: such a record would start the probe over) -
+    other probes, services, interfaces, queued re-runs and timers arbitrary.  While the probe does not end (`now < nx` or `now < st + 750`): the probe
     query for `n` leaves on `i` in this iteration exactly if `now ≥ nx` - on every family of the
     interface, a query packet with `ANY n` among the questions and all of `R` among the
     authorities - and then `nx` becomes `now + 250`; otherwise the probe is as before. -/
-theorem probe_query_in_daemon (s : State) (i : MyIntf) (l1 l2 : List MyIntf) (n : BList) (st nx : Nat) (R : List RR) (now j : Nat)
+theorem probe_query_in_daemon (s : State) (i : MyIntf) (l1 l2 : List MyIntf) (n : BList) (st nx : Nat) (R : Cargo) (now j : Nat)
     (h : Good s i l1 l2 n st nx R) (hlive : now < nx ∨ now < st + 750) :
     Good (iter s (idle now j)).1 i l1 l2 n st (if now ≥ nx then now + 250 else nx) R ∧
     (now < nx → asked i.index n (iter s (idle now j)).2 = false) ∧
     (now ≥ nx → ∀ v4, i.hasFamily v4 = true → ∃ pkt, Out.send i.index v4 none pkt ∈ (iter s (idle now j)).2 ∧
-      pkt.flags = 0 ∧ (n, TYPE_ANY) ∈ pkt.questions ∧ ∀ a ∈ R, a ∈ pkt.authorities) :=
+      pkt.flags = 0 ∧ (n, TYPE_ANY) ∈ pkt.questions ∧ ∀ a ∈ R.recs, a ∈ pkt.authorities) :=
   iter_idle_step s i l1 l2 n st nx R now j h hlive
 
 /-- PROBE LIFE CYCLE IN THE DAEMON, timely scheduler, no conflict, for ANY state as above in
@@ -179,14 +188,14 @@ theorem probe_query_in_daemon (s : State) (i : MyIntf) (l1 l2 : List MyIntf) (n 
     (`pre0 … pre3`), the iterations in which a probe query for `n` leaves on `i` are exactly those
     at `T`, `T+250` and `T+500` - none before, none in between, none at `T+750` - and after the
     iteration at `T+750` every record of the probe (filed under `n`) is active on `i`. -/
-theorem probe_schedule_in_daemon (s : State) (i : MyIntf) (l1 l2 : List MyIntf) (n : BList) (T : Nat) (R : List RR) (j : Nat)
+theorem probe_schedule_in_daemon (s : State) (i : MyIntf) (l1 l2 : List MyIntf) (n : BList) (T : Nat) (R : Cargo) (j : Nat)
     (h : Good s i l1 l2 n T T R) (hfam : ∃ v4, i.hasFamily v4 = true)
     (pre0 pre1 pre2 pre3 : List Nat)
     (h0 : ∀ t ∈ pre0, t < T) (h1 : ∀ t ∈ pre1, t < T + 250) (h2 : ∀ t ∈ pre2, t < T + 500) (h3 : ∀ t ∈ pre3, t < T + 750) :
     askTimes i.index n
       (idleRun j s ((pre0 ++ [T]) ++ ((pre1 ++ [T + 250]) ++ ((pre2 ++ [T + 500]) ++ (pre3 ++ [T + 750]))))).2 =
       [T, T + 250, T + 500] ∧
-    ∀ a ∈ R, a.getName = n →
+    ∀ a ∈ R.recs, a.getName = n →
       ((idleRun j s ((pre0 ++ [T]) ++ ((pre1 ++ [T + 250]) ++ ((pre2 ++ [T + 500]) ++ (pre3 ++ [T + 750]))))).1.registry
         i.index).isActive a = true := by
   obtain ⟨g1, a1⟩ := idleRun_phase j i l1 l2 n T T R s pre0 h (by omega) hfam h0
@@ -205,7 +214,8 @@ theorem probe_schedule_in_daemon (s : State) (i : MyIntf) (l1 l2 : List MyIntf) 
 /-- REGISTRATION STARTS THE PROBE (any running daemon state, `register(svc)` processed at `now`
     under jitter `j` in an iteration without datagram or other command): for a unique record `a`
     of the service on interface `i` that this daemon does not hold yet - not active, its name `n`
-    not being probed - the probe of `n` on `i` exists afterwards with start `now + j`, holding `a`
+    not being probed, and every record named `n` of the services registered so far active
+    (`Settled`) - the probe of `n` on `i` exists afterwards with start `now + j`, holding `a`
     or a matching record `b`; a probe query went out in this very iteration iff `j = 0`. -/
 theorem registration_starts_probe (s : State) (i : MyIntf) (l1 l2 : List MyIntf) (svc : Service) (now j : Nat)
     (v4 : Bool) (a : RR) (n : BList)
@@ -214,20 +224,22 @@ theorem registration_starts_probe (s : State) (i : MyIntf) (l1 l2 : List MyIntf)
     (hlen : Names.checkServiceNameLength svc.ty s.nameLenMax = .ok ()) (hauto : svc.addrAuto = false)
     (hprobe : svc.probe = true) (hne : addrsOn svc i v4 ≠ [])
     (ha : a ∈ uniqueRecords svc i (s.registry i.index) v4) (hname : a.getName = n)
-    (hinactive : (s.registry i.index).isActive a = false) (hfresh : alookup n (s.registry i.index).probing = none) :
+    (hinactive : (s.registry i.index).isActive a = false) (hfresh : alookup n (s.registry i.index).probing = none)
+    (hset : Settled s i.index n) :
     ∃ b, a.matchesRR b = true ∧ b.getName = n ∧
       Good (iter s { now := now, jitter := j, cmds := [.register svc] }).1 i l1 l2 n (now + j)
-        (if j = 0 then now + 250 else now + j) [b] ∧
+        (if j = 0 then now + 250 else now + j) ⟨[b], [svc.fullname], alookup n (s.registry i.index).active⟩ ∧
       (j ≠ 0 → asked i.index n (iter s { now := now, jitter := j, cmds := [.register svc] }).2 = false) ∧
       (j = 0 → ∀ v4', i.hasFamily v4' = true →
         ∃ pkt, Out.send i.index v4' none pkt ∈ (iter s { now := now, jitter := j, cmds := [.register svc] }).2 ∧
           pkt.flags = 0 ∧ (n, TYPE_ANY) ∈ pkt.questions ∧ b ∈ pkt.authorities) :=
-  registration_creates_probe s i l1 l2 svc now j v4 a n hrun hi hok hpn hnr hlen hauto hprobe hne ha hname hinactive hfresh
+  registration_creates_probe s i l1 l2 svc now j v4 a n hrun hi hok hpn hnr hlen hauto hprobe hne ha hname hinactive hfresh hset
 
 /-- FROM REGISTRATION TO ACTIVE RECORD, jitter `j ≥ 1`, timely scheduler, no conflict: in any
     running daemon state, `register(svc)` at `t0` under jitter `j`, then idle iterations at exactly
     `T = t0+j`, `T+250`, `T+500`, `T+750` and at any other instants in between.  For a unique
-    record `a` of the service on interface `i` that the daemon did not hold: no probe query for its
+    record `a` of the service on interface `i` that the daemon did not hold (and no record named
+    `n` of another registered service left to join a probe): no probe query for its
     name `n` in the registration iteration; afterwards probe queries for `n` leave on `i` in
     exactly the iterations at `T`, `T+250`, `T+500`; and after the iteration at `T+750` the record
     `a` is active on `i` - not before the probe is 750 ms old (`active_only_after_probe`). -/
@@ -239,7 +251,7 @@ theorem registration_probe_lifecycle (s : State) (i : MyIntf) (l1 l2 : List MyIn
     (hprobe : svc.probe = true) (hne : addrsOn svc i v4 ≠ [])
     (ha : a ∈ uniqueRecords svc i (s.registry i.index) v4) (hname : a.getName = n)
     (hinactive : (s.registry i.index).isActive a = false) (hfresh : alookup n (s.registry i.index).probing = none)
-    (hj : j ≠ 0) (hfam : ∃ v4', i.hasFamily v4' = true)
+    (hset : Settled s i.index n) (hj : j ≠ 0) (hfam : ∃ v4', i.hasFamily v4' = true)
     (pre0 pre1 pre2 pre3 : List Nat)
     (h0 : ∀ t ∈ pre0, t < t0 + j) (h1 : ∀ t ∈ pre1, t < t0 + j + 250) (h2 : ∀ t ∈ pre2, t < t0 + j + 500)
     (h3 : ∀ t ∈ pre3, t < t0 + j + 750) :
@@ -252,9 +264,9 @@ theorem registration_probe_lifecycle (s : State) (i : MyIntf) (l1 l2 : List MyIn
         ((pre0 ++ [t0 + j]) ++ ((pre1 ++ [t0 + j + 250]) ++ ((pre2 ++ [t0 + j + 500]) ++ (pre3 ++ [t0 + j + 750]))))).1.registry
       i.index).isActive a = true := by
   obtain ⟨b, hm, hbn, hg, hno, _⟩ := registration_creates_probe s i l1 l2 svc t0 j v4 a n hrun hi hok hpn hnr hlen hauto hprobe
-    hne ha hname hinactive hfresh
+    hne ha hname hinactive hfresh hset
   simp only [hj, ↓reduceIte] at hg
-  obtain ⟨hask, hact⟩ := probe_schedule_in_daemon _ i l1 l2 n (t0 + j) [b] j hg hfam pre0 pre1 pre2 pre3 h0 h1 h2 h3
+  obtain ⟨hask, hact⟩ := probe_schedule_in_daemon _ i l1 l2 n (t0 + j) ⟨[b], [svc.fullname], alookup n (s.registry i.index).active⟩ j hg hfam pre0 pre1 pre2 pre3 h0 h1 h2 h3
   refine ⟨hno hj, hask, ?_⟩
   exact isActive_of_matches _ a b hm (hname.trans hbn.symm) (hact b (by simp) hbn)
 
@@ -292,6 +304,83 @@ theorem second_announcement (s : State) (now j : Nat) (fullname : BList) (i : My
         (execRegisterResend s now j fullname i.index).2 :=
   registerResend_announces s now j fullname i svc r0 hsvc hreg hfind huniq hprobe hann hsound
 
+/-! ### the whole life cycle, for any service and any daemon state -/
+
+/-- the daemon state right after the iteration that processed `register(svc)` at `t0` under jitter `j` -/
+def registered (s : State) (svc : Service) (t0 j : Nat) : State :=
+  (iter s { now := t0, jitter := j, cmds := [.register svc] }).1
+
+/-- the timely iterations from the registration to just before `T + 750` (`T = t0 + j`) -/
+def probingTimes (T : Nat) (pre0 pre1 pre2 pre3 : List Nat) : List Nat :=
+  (pre0 ++ [T]) ++ ((pre1 ++ [T + 250]) ++ ((pre2 ++ [T + 500]) ++ pre3))
+
+/-- ANNOUNCED TWICE, ONE SECOND APART - for ANY service and ANY daemon state.  A running daemon
+    (invariant `Inv`, interface `i` there once, unique keys and no renames in its registry, no
+    queued goodbye repeat a query) processes `register(svc)` at `t0` under jitter `j ≥ 1`; `svc`
+    requires probing, is a fresh `ServiceInfo` with fixed addresses, has an in-subnet address of
+    family `v4` on `i`, none of its unique records of that family is held (not active, name
+    not probed), and no record under one of those names of another registered service is left to
+    join a probe (`Settled`).  Timely scheduler, no datagram and no other command: idle iterations at
+    `T = t0+j`, `T+250`, `T+500`, `T+750`, `T+1750` and at any other instants in between.  Then
+    the iteration at `T+750` sends the announcement - PTR (and subtype PTR), SRV, TXT and the
+    addresses of the family as answers - on `i` over that family, and the iteration at `T+1750`
+    sends it again (over a family in which the service has an address). -/
+theorem registration_announced_twice (s : State) (i : MyIntf) (l1 l2 : List MyIntf) (svc : Service) (t0 j : Nat) (v4 : Bool)
+    (hrun : s.stopped = false) (hinv : Inv s) (hi : IntfsOk s i l1 l2) (hok : RerunsOk s)
+    (hpn : KeysNodup (s.registry i.index).probing) (hnr : NoRen (s.registry i.index))
+    (hlen : Names.checkServiceNameLength svc.ty s.nameLenMax = .ok ()) (hauto : svc.addrAuto = false)
+    (hprobe : svc.probe = true) (hstatus : svc.status = []) (hne : addrsOn svc i v4 ≠ [])
+    (hfresh : ∀ a ∈ uniqueRecords svc i {} v4,
+      (s.registry i.index).isActive a = false ∧ alookup a.getName (s.registry i.index).probing = none)
+    (hset : ∀ a ∈ uniqueRecords svc i {} v4, Settled s i.index a.getName)
+    (hj : j ≠ 0) (hfam : ∃ v4', i.hasFamily v4' = true)
+    (pre0 pre1 pre2 pre3 pre4 : List Nat)
+    (h0 : ∀ t ∈ pre0, t < t0 + j) (h1 : ∀ t ∈ pre1, t < t0 + j + 250) (h2 : ∀ t ∈ pre2, t < t0 + j + 500)
+    (h3 : ∀ t ∈ pre3, t < t0 + j + 750) (h4 : ∀ t ∈ pre4, t < t0 + j + 750 + 1000) :
+    Out.send i.index v4 none (announcePkt svc svc.fullname (uniqueRecords svc i {} v4)) ∈
+      (iter (idleRun j (registered s svc t0 j) (probingTimes (t0 + j) pre0 pre1 pre2 pre3)).1 (idle (t0 + j + 750) j)).2 ∧
+    SentAgain
+      (iter (idleRun j
+          (iter (idleRun j (registered s svc t0 j) (probingTimes (t0 + j) pre0 pre1 pre2 pre3)).1 (idle (t0 + j + 750) j)).1
+          pre4).1 (idle (t0 + j + 750 + 1000) j)).2 i svc := by
+  have hnc := hnr.1
+  have huq : ∀ v, uniqueRecords svc i (s.registry i.index) v = uniqueRecords svc i {} v :=
+    fun v => uniqueRecords_congr (r := {}) hnc svc i v
+  -- the state after the registration
+  have hplain : ({ now := t0, jitter := j, cmds := [.register svc] } : Input).plain :=
+    ⟨fun _ h => by simp at h, fun x h => by
+      simp only [List.mem_cons, Command.register.injEq, List.not_mem_nil, or_false] at h
+      subst h; exact hstatus⟩
+  have hinv1 : Inv (registered s svc t0 j) := iter_inv s _ hinv hplain
+  have hent1 : Entry (registered s svc t0 j) (lower svc.fullname) svc := registration_entry s svc t0 j hrun hlen hauto
+  -- every unique record of the family is probed, fresh at T = t0 + j
+  have hall1 : AllProbed (registered s svc t0 j) i l1 l2 svc v4 (t0 + j) (t0 + j) := by
+    intro a ha
+    obtain ⟨hina, hfra⟩ := hfresh a ha
+    obtain ⟨b, hm, hbn, hg, _, _⟩ := registration_creates_probe s i l1 l2 svc t0 j v4 a a.getName hrun hi hok hpn hnr hlen hauto
+      hprobe hne (by rw [huq]; exact ha) rfl hina hfra (hset a ha)
+    simp only [hj, ↓reduceIte] at hg
+    exact ⟨b, _, hm, hbn, by simpa [Registry.isActive] using hina, hg⟩
+  -- ... and still so just before T + 750
+  have hallk : AllProbed (idleRun j (registered s svc t0 j) (probingTimes (t0 + j) pre0 pre1 pre2 pre3)).1 i l1 l2 svc v4
+      (t0 + j) (t0 + j + 750) := by
+    intro a ha
+    obtain ⟨b, A, hm, hbn, hA, hg⟩ := hall1 a ha
+    exact ⟨b, A, hm, hbn, hA, idleRun_to_end j i l1 l2 a.getName (t0 + j) _ _ hg hfam pre0 pre1 pre2 pre3 h0 h1 h2 h3⟩
+  have hinvk := idleRun_inv j (probingTimes (t0 + j) pre0 pre1 pre2 pre3) _ hinv1
+  have hentk := idleRun_entry j (lower svc.fullname) svc (probingTimes (t0 + j) pre0 pre1 pre2 pre3) _ hent1
+  -- the first announcement
+  obtain ⟨hsend, hann, hrer⟩ := iter_idle_announces _ i l1 l2 svc v4 (t0 + j) j hinvk hentk hprobe hne (srvOf svc)
+    (srvOf_mem svc i) hallk
+  refine ⟨hsend, ?_⟩
+  -- the bundle after it, carried to the second announcement
+  obtain ⟨_, _, _, _, _, hgk⟩ := hallk (srvOf svc) (srvOf_mem svc i v4)
+  have hafter : After (iter (idleRun j (registered s svc t0 j) (probingTimes (t0 + j) pre0 pre1 pre2 pre3)).1
+      (idle (t0 + j + 750) j)).1 i l1 l2 svc (t0 + j + 750 + 1000) :=
+    ⟨iter_idle_running _ _ j hgk.running, ⟨(iter_idle_intfs _ _ j hgk.running).trans hgk.intfs.split, hgk.intfs.other⟩,
+      iter_inv _ _ hinvk (idle_plain _ j), hann, hrer⟩
+  exact iter_idle_reannounces (After.run j pre4 _ hafter h4) hprobe _ j (Nat.le_refl _)
+
 /-! ### findings (the model mirrors the code; both agree on the witnesses in corpus/C07) -/
 
 /-- FINDING (late first iteration): a probe that has sent nothing ends in the first iteration
@@ -301,14 +390,73 @@ theorem late_iteration_skips_probes (T t : Nat) (h : t ≥ T + 750) (rest : List
     (Probe.new T).trace (t :: rest) = [(t, .expire)] :=
   Probe.trace_expire _ t rest (by simp [Probe.new]; omega) (by simpa [Probe.new] using h)
 
-/-- FINDING (shared probe): a record that joins an existing probe (a second service on the same
-    host name with another address) takes over that probe's start time, so it can become active
-    after fewer than three probe queries of its own. -/
-theorem joining_record_inherits_age (r : Registry) (a : RR) (n : BList) (t : Nat) (q : Probe)
+/-- REPAIRED (D33, shared probe; was `joining_record_inherits_age`): a record that comes to an
+    existing probe of its name - a second service on the same host name with another address -
+    and is not matched there joins the probe, and when the probe began before `t` the probe's
+    schedule starts over at `t`: the record gets three probe queries of its own
+    (`probe_timeline`).  A record that is matched, or a probe that is not older, keeps the times. -/
+theorem joining_record_restarts_probe (r : Registry) (a : RR) (n : BList) (t : Nat) (q : Probe)
     (h : alookup a.getName r.probing = some q) :
-    ∃ p, alookup a.getName (r.probeInsert a n t).probing = some p ∧ p.start = q.start ∧ p.next = q.next := by
+    ∃ p, alookup a.getName (r.probeInsert a n t).probing = some p ∧ p.records.any (a.matchesRR ·) = true ∧
+      (q.records.any (a.matchesRR ·) = false → q.start < t → p.start = t ∧ p.next = t) ∧
+      ((q.records.any (a.matchesRR ·) = true ∨ t ≤ q.start) → p.start = q.start ∧ p.next = q.next) := by
   obtain ⟨p, hp, _, hold⟩ := probeInsert_times r a n t
-  exact ⟨p, hp, hold q h⟩
+  refine ⟨p, hp, ?_, ?_, ?_⟩
+  · simp only [Registry.probeInsert, alookup_aset_self, h, Option.getD_some, Option.some.injEq] at hp
+    subst hp
+    rw [Probe.join_records]
+    split
+    · assumption
+    · simp only [List.any_eq_true]
+      exact ⟨a, (mem_insertRR a a _).mpr (Or.inl rfl), RR.matchesRR_self a⟩
+  · intro h1 h2
+    rcases hold q h with ⟨_, _, h3⟩ | ⟨e1, e2, _⟩
+    · simp [Probe.restarts, h1, h2] at h3
+    · exact ⟨e1, e2⟩
+  · intro h1
+    rcases hold q h with ⟨e1, e2, _⟩ | ⟨_, _, h3⟩
+    · exact ⟨e1, e2⟩
+    · have := Probe.restarts_spec h3
+      rcases h1 with h1 | h1
+      · rw [this.1] at h1; cases h1
+      · omega
+
+/-- a second service on the host name of `web`, with another address -/
+def web2 : Service := { web with
+  fullname := [0x74,0x77,0x6f,0x2e,0x5f,0x68,0x74,0x74,0x70,0x2e,0x5f,0x74,0x63,0x70,0x2e,0x6c,0x6f,0x63,0x61,0x6c,0x2e],
+  addrs := [[192, 168, 1, 21]] }
+
+def web2A : RR := { name := web.host, ty := 1, flush := true, ttl := 120, rdata := .a [192, 168, 1, 21] }
+
+/-- is `a` among the authorities of a probe query of this iteration? -/
+def probesWith (a : RR) (outs : List Out) : Bool :=
+  outs.any fun
+    | .send _ _ none p => p.flags == 0 && p.authorities.contains a
+    | _ => false
+
+/-- is `a` among the answers of a response of this iteration? -/
+def answersWith (a : RR) (outs : List Out) : Bool :=
+  outs.any fun
+    | .send _ _ none p => p.flags != 0 && p.answers.contains a
+    | _ => false
+
+/-- the history of the D33 witness (corpus/C07/d33_shared_probe_age.ops): `web` registered at
+    1000000, `web2` - same host name, another address - 600 ms later, while the probe of the host
+    name is running; timely iterations -/
+def sharedHostRun : List (List Out) :=
+  (run (init 1000000 [eth0])
+    ([{ now := 1000000, jitter := 7, cmds := [.register web] }, { now := 1000007, jitter := 7 }, { now := 1000257, jitter := 7 },
+      { now := 1000507, jitter := 7 }, { now := 1000600, jitter := 7, cmds := [.register web2] }] ++
+      [1000607, 1000757, 1000857, 1001107, 1001357].map fun t => { now := t, jitter := 7 })).2
+
+set_option maxRecDepth 100000 in
+/-- REGRESSION (D33): the address record of the second service is probed three times - at
+    1000607, 1000857, 1001107 - before the announcement at 1001357 carries it; before the repair
+    it went out at 1000757 after one probe query. -/
+example :
+    sharedHostRun.map (probesWith web2A) = [false, false, false, false, false, true, false, true, true, false] ∧
+    sharedHostRun.map (answersWith web2A) = [false, false, false, false, false, false, false, false, false, true] := by
+  decide +kernel
 
 /-! ### the whole life cycle under the timely scheduler -/
 
@@ -447,10 +595,10 @@ def probingRegistry : Registry :=
 
 theorem probingState_registry : probingState.registry 2 = probingRegistry := by decide +kernel
 
-example : Good probingState eth0 [] [] web.fullname 1000007 1000007 [webTxt, webSrv] := by
-  refine ⟨by decide +kernel, ⟨by decide +kernel, by simp⟩, ⟨?_, ?_, ?_⟩, ?_⟩
+example : Good probingState eth0 [] [] web.fullname 1000007 1000007 ⟨[webTxt, webSrv], [web.fullname], none⟩ := by
+  refine ⟨by decide +kernel, ⟨by decide +kernel, by simp⟩, ⟨?_, ?_, ?_, ?_, ?_⟩, ?_⟩
   · exact ⟨{ records := [webTxt, webSrv], waiting := [web.fullname], start := 1000007, next := 1000007 },
-      by rw [show eth0.index = 2 from rfl, probingState_registry]; decide, rfl, rfl, fun a h => h⟩
+      by rw [show eth0.index = 2 from rfl, probingState_registry]; decide, rfl, rfl, fun a h => h, fun w h => h⟩
   · rw [show eth0.index = 2 from rfl, probingState_registry]
     unfold KeysNodup
     decide
@@ -463,6 +611,31 @@ example : Good probingState eth0 [] [] web.fullname 1000007 1000007 [webTxt, web
       rcases ha with rfl | rfl <;> rfl
     · simp only [List.mem_cons, List.not_mem_nil, or_false] at ha
       subst ha; rfl
+  · rw [show eth0.index = 2 from rfl, probingState_registry]; rfl
+  · -- the only registered service is `web`; its records under the instance name sit in the probe
+    have hsv : probingState.services = [(web.fullname, { web with status := [(2, .probing)] })] := by decide +kernel
+    have hin : probingState.intfs = [eth0] := by decide +kernel
+    intro k svc hk _ i hi _ v4 hne a ha hn
+    rw [hsv] at hk
+    simp only [alookup] at hk
+    split at hk
+    · cases hk
+      rw [hin] at hi
+      simp only [List.mem_cons, List.not_mem_nil, or_false] at hi
+      subst hi
+      right
+      refine ⟨{ records := [webTxt, webSrv], waiting := [web.fullname], start := 1000007, next := 1000007 },
+        by rw [show eth0.index = 2 from rfl, probingState_registry]; decide, ?_⟩
+      cases v4
+      · exact absurd (by decide) hne
+      · have hu : uniqueRecords { web with status := [(2, .probing)] } eth0 {} true = [webSrv, webTxt, webA] := by decide
+        rw [hu] at ha
+        simp only [List.mem_cons, List.not_mem_nil, or_false] at ha
+        rcases ha with rfl | rfl | rfl
+        · decide
+        · decide
+        · exact absurd hn (by decide)
+    · cases hk
   · intro t p k v hm
     have : probingState.reruns = [] := by decide +kernel
     rw [this] at hm
@@ -482,7 +655,7 @@ example :
     (by decide) ⟨by decide, by simp⟩ (fun _ _ _ _ h => by simp [init] at h)
     (by rw [init_registry]; unfold KeysNodup; decide) (by rw [init_registry]; exact NoRen.empty)
     (by decide) rfl rfl (by decide) (by rw [init_registry]; decide) rfl (by rw [init_registry]; decide)
-    (by rw [init_registry]; decide) (by decide) ⟨true, by decide⟩ [] [] [] []
+    (by rw [init_registry]; decide) (fun k svc hk => by simp [init, alookup] at hk) (by decide) ⟨true, by decide⟩ [] [] [] []
     (by simp) (by simp) (by simp) (by simp)).2.1
 
 end Mdns.Props.C07
